@@ -44,7 +44,9 @@ class StepClock(object):
     def _inside(self, code):
         known = self._known.get(code)
         if known is None:
-            known = code.co_filename.startswith(self.prefix)
+            # repo files, and the methods attrs generates for the repo's classes (__init__, __eq__, ...), whose
+            # code objects carry a synthetic file name
+            known = code.co_filename.startswith(self.prefix) or code.co_filename.startswith('<attrs generated')
             self._known[code] = known
         return known
 
